@@ -57,7 +57,7 @@ PROPS = {
     'C17': dict(
         technique='Verus contracts on lifted real functions (ap tracking, frame state) + Kani function contracts on ApplyApChange impls and builder bookkeeping; composition lemmas in Verus',
         level_text='Deductive proof of the checker side: each function that validates or propagates ap changes satisfies an iff-contract written from the property statement, for all arguments.',
-        level_note='Trusted: A0 (trace-level induction not mechanised), tools, assumed Clone specs. The solvers and the libfunc ap-change table are outside contracts; declared-vs-emitted ap movement is covered only by bounded native stand-ins: the path-sum over the Sierra corpus and generated boundary programs (n_c17_casm_paths), the per-libfunc table-vs-emitted comparison over the boundary universe of generic arguments (n_libfunc_sweep), trace-level call instances of compiled Cairo programs on the VM under both solvers (n_trace_corpus); the return check by n_c17_return.',
+        level_note='Trusted: A0 (trace-level induction not mechanised), tools, assumed Clone specs. The solvers and the libfunc ap-change table are outside contracts; declared-vs-emitted ap movement is covered only by bounded native stand-ins: the path-sum over the Sierra corpus and generated boundary programs (n_c17_casm_paths), the per-libfunc table-vs-emitted comparison over the boundary universe of generic arguments (n_libfunc_sweep), trace-level call instances of compiled Cairo programs and of hand-written Sierra shapes on the VM under both solvers (n_trace_corpus); the return check by n_c17_return. One open known finding (F21: dummy_function_call declared Known(2)).',
         scope='Checker side of ap-change soundness: reference shifting, ap tracking accumulation, frame-state transitions, environment merge equality, builder ap bookkeeping.',
         assumptions=[A0, A1, A3, A4],
         outside=['validate_return_properties (Metadata lookup + closure)', 'ApChange mapping inside CompiledInvocationBuilder::build (closure in zip_eq/map/collect)',
@@ -66,7 +66,7 @@ PROPS = {
     'C14': dict(
         technique='Verus overflow/index/unwrap obligations on lifted real functions + Kani bit-precise harnesses; native bounded stand-ins',
         level_text='Panic-freedom (no overflow, no out-of-range index, no failed unwrap, bounded allocation) of each listed unit for all arguments under stated preconditions.',
-        level_note='Per-unit claim, not whole-pipeline. Preconditions cite the upstream validator that establishes them. The rest of the untrusted path (ProgramRegistry, solvers, compile loop, build_* generators, type sizes) is covered only by bounded native stand-ins: known-input replay, a structured mutation space over small programs (n_c14_mutations), size-boundary programs (n_c14_type_sizes), a sweep of every generic libfunc/type id over boundary generic-argument lists through ProgramRegistry::new (n_c14_specialize), generated contracts and class mutants through the felt-serialized path into from_contract_class (n_class_gen), felt-level mutants of checked-in classes (n_c14_felt_mutants), one-invocation programs around every accepted libfunc declaration through both metadata solvers and compile (n_libfunc_sweep).',
+        level_note='Per-unit claim, not whole-pipeline. Preconditions cite the upstream validator that establishes them. The rest of the untrusted path (ProgramRegistry, solvers, compile loop, build_* generators, type sizes) is covered only by bounded native stand-ins: known-input replay, a structured mutation space over small programs (n_c14_mutations), size-boundary programs (n_c14_type_sizes), a sweep of every generic libfunc/type id over boundary generic-argument lists through ProgramRegistry::new (n_c14_specialize), generated contracts and class mutants through the felt-serialized path into from_contract_class (n_class_gen), felt-level mutants of checked-in classes (n_c14_felt_mutants), one-invocation programs around every accepted libfunc declaration through both metadata solvers and compile (n_libfunc_sweep). Known-input replay has a 150 s limit per input (never hang). Seven open known findings (F28-F34: cost / ap-change integer overflow on call towers, the infallible CasmBuilder API at the i16 edges), each a KNOWN-FINDING line keyed by its input.',
         scope='Arithmetic, indexing, unwrap and allocation obligations of the units on the untrusted-Sierra path; not the whole pipeline.',
         assumptions=[A0, A1, A3, A4,
                      'A6 preconditions that cite an upstream validator (e.g. type sizes in [0, i16::MAX] from get_type_size_map) trust that validator'],
